@@ -32,6 +32,9 @@ pub struct Proj {
     pub mode: Mode,
     /// `A` (disassembly) lines: compare only the size field
     pub da_size_only: bool,
+    /// `H` lines of register sweeps: 1 registers+memory, 2 F (documented rows), 4 PC+SP, 8 T-states,
+    /// 16 T-states against Zilog's figure (documented rows), 32 control state
+    pub swr: u8,
 }
 
 #[derive(Clone, Copy, Debug, PartialEq)]
@@ -61,6 +64,7 @@ pub const FULL: Proj = Proj {
     slice: true,
     mode: Mode::Plain,
     da_size_only: false,
+    swr: 0x3F,
 };
 pub const NONE: Proj = Proj {
     fmask: 0,
@@ -76,6 +80,7 @@ pub const NONE: Proj = Proj {
     slice: false,
     mode: Mode::Plain,
     da_size_only: false,
+    swr: 0,
 };
 
 /// A relation between two replies of the implementation inside one case.
@@ -357,6 +362,32 @@ pub fn compare(imp: &str, model: &str, p: &Proj) -> Option<(String, bool)> {
                 }
             }
         }
+    } else if imp.starts_with("H ") && model.starts_with("H ") && p.swr != 0 {
+        let a: Vec<&str> = imp.split(' ').collect();
+        let b: Vec<&str> = model.split(' ').collect();
+        if a.len() < 7 || b.len() < 7 {
+            return Some(("shape".into(), false));
+        }
+        let doc = extra(&b, "doc=") == Some("1");
+        if p.swr & 1 != 0 && a[1] != b[1] {
+            return Some(("sweep: registers or memory".into(), false));
+        }
+        if p.swr & 2 != 0 && doc && a[2] != b[2] {
+            return Some(("sweep: documented flags".into(), false));
+        }
+        if p.swr & 4 != 0 && a[3] != b[3] {
+            return Some(("sweep: PC or SP".into(), false));
+        }
+        if p.swr & 16 != 0 && doc && a[4] != b[5] {
+            return Some(("sweep: T-states differ from Zilog's figures".into(), true));
+        }
+        if p.swr & 8 != 0 && a[4] != b[4] {
+            return Some(("sweep: T-states".into(), false));
+        }
+        if p.swr & 32 != 0 && a[6] != b[6] {
+            return Some(("sweep: control state".into(), false));
+        }
+        None
     } else if !p.other {
         None
     } else if imp.starts_with("A ") && p.da_size_only {
@@ -632,8 +663,12 @@ pub fn run_cases(drv: &str, tmpdir: &str, cases: Vec<Case>, threads: usize) -> S
     if cases.is_empty() {
         return total;
     }
+    // register sweeps are ~65,536 steps each: small chunks keep every worker busy
+    let is_heavy = |c: &Case| c.cmds.iter().any(|m| matches!(m, Cmd::SWR { .. }));
+    let (heavy, cases): (Vec<Case>, Vec<Case>) = cases.into_iter().partition(is_heavy);
     let chunk = ((cases.len() + threads - 1) / threads).clamp(1, 3000);
-    let chunks: Vec<&[Case]> = cases.chunks(chunk).collect();
+    let mut chunks: Vec<&[Case]> = heavy.chunks(24).collect();
+    chunks.extend(cases.chunks(chunk));
     let next = std::sync::atomic::AtomicUsize::new(0);
     let results = std::sync::Mutex::new(Vec::new());
     std::thread::scope(|s| {
